@@ -24,6 +24,8 @@ DECIDED = ('(a) an upload window never reads outside its part: BytesIOProxy.read
            'refuted remainder does not skip the search (shared with C06.c / C06.e / C06.g).')
 DECIDED_MORE = ('Also: the reader premise of C04; every store of the upload window position is clamped into [start, end].')
 DECIDED = DECIDED + ' ' + DECIDED_MORE
+DECIDED_R6 = ('Round 6: boundary cut out of the raw CONTENT_TYPE; parts routed by the presence of a file name alone; window position absolute or relative to the part start (rules compared as linear forms).')
+DECIDED = DECIDED + ' ' + DECIDED_R6
 NOT_DECIDED = ('the round trip itself (equality of decoded values with what was encoded over unbounded field lists); non-ASCII '
                'handling; content types of uploads.')
 ASSUMPTIONS = ['io.BytesIO / file seek+read semantics', 'the multipart encoder under test is RFC 7578 conformant']
